@@ -145,7 +145,10 @@ def c09():
     to = 120000 if tier == 'quick' else 1800000
     items = []
     for isa in ISAS:
-        items += items_for(isa, heap_shapes(isa, tier), N, ['heap'], to)
+        # quick tier: the store side of create and the load side of method entry repeat let / switch, so they get the
+        # smaller universe; let / switch / substitute keep N
+        items += items_for(isa, S.let_shapes(isa, tier) + S.switch_shapes(isa, tier), N, ['heap'], to)
+        items += items_for(isa, S.create_shapes(isa, tier) + S.method_shapes(isa, tier), N - 1 if tier == 'quick' else N, ['heap'], to)
         items += items_for(isa, S.substitute_shapes(isa, tier, 2, 2), N, ['heap'], to)
     run_items(chk, items, rule="every allocating / loading / substituting statement shape; pre-state = arbitrary heap satisfying I; "
                                "goals = fault-freedom + I' (states, lists, typed fields, exact reference counts) + field frame")
@@ -162,7 +165,8 @@ def c10():
         # the footprint clauses presuppose the heap invariant (a leaked block also breaks the bound), so both
         # classes are discharged for the allocating shapes; loads get the footprint class (frontier unchanged) and
         # the heap class on the multi-block shapes (every block of a released object must return to a free list)
-        items += items_for(isa, S.let_shapes(isa, tier) + S.create_shapes(isa, tier), N, ['footprint', 'heap'], to)
+        items += items_for(isa, S.let_shapes(isa, tier), N, ['footprint', 'heap'], to)
+        items += items_for(isa, S.create_shapes(isa, tier), N - 1 if tier == 'quick' else N, ['footprint', 'heap'], to)
         sw = S.switch_shapes(isa, tier)
         items += items_for(isa, [s_ for s_ in sw if max(len(c) for c in s_['clauses']) > 3], N, ['footprint', 'heap'], to)
         items += items_for(isa, [s_ for s_ in sw if max(len(c) for c in s_['clauses']) in (1, 3)], N, ['footprint'], to)
@@ -179,7 +183,12 @@ def c11():
     items = []
     mm = 3 if tier == 'quick' else 4
     for isa in ISAS:
-        items += items_for(isa, S.substitute_shapes(isa, tier, mm, mm), N, None, to)
+        if tier == 'quick':
+            # all maps m, n <= 3 in a universe of 4 blocks, and the m, n <= 2 subset again in 5 blocks
+            items += items_for(isa, S.substitute_shapes(isa, tier, mm, mm), N - 1, None, to)
+            items += items_for(isa, S.substitute_shapes(isa, tier, 2, 2), N, None, to)
+        else:
+            items += items_for(isa, S.substitute_shapes(isa, tier, mm, mm), N, None, to)
     run_items(chk, items, rule="all maps from m new to n old variables (m, n <= bound), all kind assignments, windows: all-register, "
                                "straddling the register/spill boundary, all-spill")
     return chk.finish()
